@@ -140,6 +140,14 @@ def k2(rep, w):
     from_super = any('methods' in q for i in ins for q in gorg.get((op_place(g.blocks[i]['t']['args'][0]) or {}).get('l'), ()))
     sets_super = any(isinstance(s.get('d', {}).get('p', [None])[-1] if s.get('d', {}).get('p') else None, dict) and s['d']['p'][-1].get('n') == 'superclass'
                      for b in g.blocks for s in b['s'])
+    if not sets_super:
+        # ... or through a setter of ObjClass that stores it (and keeps something derived from it, a chain length, consistent)
+        for _, t in g.calls():
+            h = w.fns.get(callee_name(t) or '')
+            if h is not None and h.path.startswith('yarel::object::ObjClass::'):
+                if any(isinstance(s2.get('d', {}).get('p', [None])[-1] if s2.get('d', {}).get('p') else None, dict) and s2['d']['p'][-1].get('n') == 'superclass'
+                       for b2 in h.blocks for s2 in b2['s']):
+                    sets_super = True
     # ... every one of them: inside the copying loop the only branch is the loop's own "next element or done" (an entry that is
     # skipped - "statics stay with the class that declares them" - is missing from the subclass's table, and super.new / inherited
     # static calls look there)
